@@ -117,6 +117,8 @@ class Program:
     diagonal: bool = False
     raw_names: dict = field(default_factory=dict)
     label: str = ""
+    etype: str = "cell"          # expressions: where the evaluation points live (cell | facet)
+    value_shape: tuple = ()
 
     def describe(self):
         def names(raw):
@@ -124,7 +126,7 @@ class Program:
         sp = {n: s.describe(names) for n, s in self.spaces.items()}
         return {"cell": self.cell, "tdim": self.tdim, "gdim": self.gdim, "itype": self.itype,
                 "rank": self.rank, "args": self.args, "coefs": self.coefs, "coord": self.coord,
-                "spaces": sp, "diagonal": self.diagonal}
+                "spaces": sp, "diagonal": self.diagonal, "etype": self.etype}
 
     @property
     def nsides(self):
@@ -132,7 +134,7 @@ class Program:
 
     def nentities(self):
         geom, topo = ref_geometry(self.cell)
-        if self.itype == "cell":
+        if self.itype == "cell" or (self.itype == "expression" and self.etype == "cell"):
             return 1
         if self.itype == "vertex":
             return len(topo[0])
@@ -217,7 +219,7 @@ def programs_of_form(form, form_index, scalar, exact_ok=True, diagonal=False, la
 
 def rule_for(part, prog, entity):
     """Points on the reference integration entity + weights (Fractions) for this part and entity."""
-    if prog.itype == "cell":
+    if prog.itype == "cell" or (prog.itype == "expression" and prog.etype == "cell"):
         ecell = prog.cell
     elif prog.itype == "vertex":
         ecell = "vertex"
@@ -255,7 +257,7 @@ class Oracle:
             pts, wts, ecell = rule_for(part, prog, ent[0])
             xq = []
             for s in range(prog.nsides):
-                if prog.itype == "cell":
+                if prog.itype == "cell" or (prog.itype == "expression" and prog.etype == "cell"):
                     xs = [list(p) for p in pts]
                 elif prog.itype == "vertex":
                     geom, _ = ref_geometry(prog.cell)
@@ -344,6 +346,21 @@ class Oracle:
 
 
 def _decode(v):
+    if v[0] == "ok-expr":
+        comps = []
+        for t in v[1]:
+            rows = []
+            for i in sorted(t):
+                row = []
+                for j in sorted(t[i]):
+                    (re, im), mag = t[i][j]
+                    row.append((Fr(re[0], re[1]), Fr(im[0], im[1]), Fr(mag[0], mag[1])))
+                rows.append(row)
+            comps.append(rows)
+        # arrange as A[point][component][dof] flattened into one row vector
+        ncomp, ndof, npts = len(comps), len(comps[0]), len(comps[0][0])
+        flat = [comps[k][i][q] for q in range(npts) for k in range(ncomp) for i in range(ndof)]
+        return ("ok", [flat], Fr(v[2][0], v[2][1]))
     if v[0] != "ok":
         return (v[0],)
     t = v[1]
@@ -421,6 +438,9 @@ def pack(prog: Program, case, scalar):
 
 def tensor_shape(prog: Program):
     ns = prog.nsides
+    if prog.itype == "expression":
+        nd = prog.spaces[prog.args[0]].dim if prog.args else 1
+        return [len(prog.parts[0].pts) * len(prog.parts) * nd]
     dims = [ns * prog.spaces[a].dim for a in prog.args]
     if prog.diagonal and len(dims) == 2:
         dims = dims[:1]
@@ -557,29 +577,33 @@ def _facet_friendly(prog, rnd, facet):
 _FS_CACHE = None
 
 
-def enumerate_formspace(chk=None, facets=False):
+def enumerate_formspace(chk=None, facets=False, exprs=False):
     """All valid abstract cases of FormSpace.tla, as TLC enumerates them."""
     global _FS_CACHE
     if _FS_CACHE is None:
         d = tlc.stage("formspace", ["FormSpace"], {"FormSpace.cfg": ""})
         r = tlc.run(d, "FormSpace", cfg="FormSpace.cfg", workers=1, timeout=600)
-        cases, fcases, counts = [], [], {}
+        cases, fcases, ecases, counts = [], [], [], {}
         for s_ in r.printed:
             v = tlc.parse_tla(s_)
             if v[0] == "CASE":
                 cases.append(v[1])
             elif v[0] == "FCASE":
                 fcases.append(v[1])
-            elif v[0] in ("NCASES", "NFCASES"):
+            elif v[0] == "ECASE":
+                ecases.append(v[1])
+            elif v[0] in ("NCASES", "NFCASES", "NECASES"):
                 counts[v[0]] = v[1]
-        if not cases or counts.get("NCASES") != len(cases) or counts.get("NFCASES") != len(fcases):
+        if (not cases or counts.get("NCASES") != len(cases) or counts.get("NFCASES") != len(fcases)
+                or counts.get("NECASES") != len(ecases)):
             raise MachineryError("FormSpace enumeration failed:\n" + "\n".join(r.out.splitlines()[-20:]))
         cases.sort(key=lambda c: json.dumps(c, sort_keys=True))
         fcases.sort(key=lambda c: json.dumps(c, sort_keys=True))
-        _FS_CACHE = (cases, fcases)
+        ecases.sort(key=lambda c: json.dumps(c, sort_keys=True))
+        _FS_CACHE = (cases, fcases, ecases)
     if chk is not None:
-        chk.add(formspace_cases=len(_FS_CACHE[0]) + len(_FS_CACHE[1]))
-    return _FS_CACHE[1] if facets else _FS_CACHE[0]
+        chk.add(formspace_cases=sum(len(x) for x in _FS_CACHE))
+    return _FS_CACHE[2] if exprs else _FS_CACHE[1] if facets else _FS_CACHE[0]
 
 
 _NDOF = {"P1": 1, "P2": 3, "P3": 6, "DG0": 0.4, "DG1": 1, "vP1": 2.5, "vP2": 7, "symP1": 3, "TH": 8, "RT1": 1, "N1": 1.5,
@@ -589,6 +613,8 @@ _CELLW = {"interval": 0.3, "triangle": 1, "quadrilateral": 2, "tetrahedron": 3, 
 
 def case_cost(c):
     """Rough relative cost of evaluating the case in TLC (dofs^2 x points)."""
+    if "pts" in c:
+        return _NDOF[c["elem"]] * _CELLW.get(c["cell"], 6)
     r = {"exact": 2.0, "custom": 1.0, "vertex": 1.0}[c["rule"]]
     rank2 = 0.3 if c["term"] in ("load", "gradload", "energy", "xint", "nload", "fload", "area", "jumpload") else 1.0
     side = 4 if c.get("measure") == "dS" else 1
@@ -606,7 +632,7 @@ def sample_cases(cases, n, seed, must=lambda c: True, max_cost=None):
     seen, chosen, rest = set(), [], []
     for c in pool:
         feats = {(k, v) for k, v in c.items()} | {("et", c["elem"], c["term"]), ("cg", c["cell"], c.get("geom", c.get("measure"))),
-                                                   ("cr", c["cell"], c["rule"])}
+                                                   ("cr", c["cell"], c.get("rule", c.get("pts")))}
         if feats - seen and len(chosen) < n:
             chosen.append(c)
             seen |= feats
@@ -617,6 +643,8 @@ def sample_cases(cases, n, seed, must=lambda c: True, max_cost=None):
 
 
 def case_label(c):
+    if "pts" in c:
+        return "expr/" + "/".join(str(c[k]) for k in ("cell", "elem", "term", "pts", "geom"))
     if "measure" in c:
         return "/".join(str(c[k]) for k in ("cell", "elem", "term", "measure", "rule"))
     return "/".join(str(c[k]) for k in ("cell", "elem", "term", "rule", "geom", "xdeg"))
@@ -814,3 +842,85 @@ def interior_pair(prog: Program, rnd: random.Random, fplus: int):
         X[k] -= sgn                                # same physical point in the neighbour's frame
         match.append(newidx[vindex(X)])
     return fminus, xp, xm, match
+
+
+def programs_of_expression(expr, points, scalar, label=""):
+    """The oracle's view of a UFL expression evaluated at reference points (cell or facet points)."""
+    ensure_repo_on_path()
+    import ufl
+    from ufl.algorithms.apply_algebra_lowering import apply_algebra_lowering
+    from ufl.algorithms.apply_derivatives import apply_derivatives
+
+    from .ufl2tree import Treeifier, lower_integrand
+
+    cx = scalar.startswith("complex")
+    coefs = ufl.algorithms.extract_coefficients(expr)
+    consts = ufl.algorithms.analysis.extract_constants(expr)
+    arguments = sorted(ufl.algorithms.extract_arguments(expr), key=lambda a: a.number())
+    dom = ufl.domain.extract_unique_domain(expr)
+    cell = dom.ufl_cell().cellname
+    xel = dom.ufl_coordinate_element()
+    gdim = xel.reference_value_shape[0]
+    tdim = dom.ufl_cell().topological_dimension
+    points = np.asarray(points, dtype=float)
+    pdim = points.shape[1]
+    etype = "cell" if pdim == tdim else "facet"
+    spaces, raw_names = {}, {}
+
+    def add_space(name, el):
+        s_ = Space(el)
+        spaces[name] = s_
+        for sub in s_.subs:
+            raw_names.setdefault(repr(sub["raw"]), (f"E{len(raw_names) + 1}", sub))
+        return name
+
+    coord = add_space("X", xel)
+    args = [add_space(f"A{a.number()}", a.ufl_element()) for a in arguments]
+    cnames = [add_space(f"W{i}", c.ufl_element()) for i, c in enumerate(coefs)]
+    coef_index = {c: i for i, c in enumerate(coefs)}
+    const_index = {c: i for i, c in enumerate(consts)}
+    low = apply_derivatives(apply_algebra_lowering(expr))
+    shape = low.ufl_shape
+    pts = [[frac(c, "evaluation point") for c in p] for p in points]
+    parts = []
+    import itertools
+    for idx in itertools.product(*[range(n) for n in shape]):
+        comp = low[idx] if idx else low
+        tf = Treeifier(coef_index, const_index, {a.number(): i for i, a in enumerate(arguments)})
+        tree = tf.tree(lower_integrand(comp, cx))
+        pt = Part(tree, tf.aleaves, tf.cleaves, pts, [Fr(1)] * len(pts), tf.uses_normal, tf.max_deriv, "custom")
+        pt.degree = 0
+        pt.has_cond = tf.has_cond
+        parts.append(pt)
+    return [Program(0, "expression", -1, cell, tdim, gdim, len(arguments), scalar, spaces, args, cnames,
+                    [spaces[n].dim for n in cnames], [int(np.prod(c.ufl_shape, dtype=int)) for c in consts],
+                    coord, parts, raw_names=raw_names, label=label, etype=etype, value_shape=tuple(shape))]
+
+
+class ExprModule:
+    """JIT-compiled expressions (the implementation under test)."""
+
+    def __init__(self, exprs, scalar, options=None, extra_args=("-O0",)):
+        ensure_repo_on_path()
+        import ffcx.codegeneration.jit as jit
+
+        opts = {"scalar_type": scalar}
+        opts.update(options or {})
+        self.scalar = scalar
+        self.objs, self.module, self.code = jit.compile_expressions(
+            list(exprs), options=opts, cache_dir=scratch("jit"), cffi_extra_compile_args=list(extra_args))
+        self.ffi = self.module.ffi
+
+    def kernels(self, k, itype, sid):
+        return [self.objs[k]]
+
+    call = Module.call
+
+    def descriptor(self, k):
+        e, ffi = self.objs[k], self.ffi
+        return {"num_points": e.num_points, "entity_dimension": e.entity_dimension,
+                "points": [float(e.points[i]) for i in range(e.num_points * e.entity_dimension)],
+                "value_shape": [e.value_shape[i] for i in range(e.num_components)],
+                "num_components": e.num_components, "rank": e.rank,
+                "num_coefficients": e.num_coefficients, "num_constants": e.num_constants,
+                "original_coefficient_positions": [e.original_coefficient_positions[i] for i in range(e.num_coefficients)]}
